@@ -284,6 +284,8 @@ pub async fn drive_catch<F: Future + ?Sized>(f: &mut Pin<Box<F>>, w: &Arc<CountW
             Ok(Poll::Ready(x)) => return Driven::Done(x),
             Ok(Poll::Pending) => {}
         }
+        // the caller's task gives control back to the executor
+        sim::task_yielded();
         sim::settle().await;
         if w.count() == before {
             return Driven::Stalled;
@@ -546,6 +548,18 @@ impl Env {
                 self.push_cut(c, &b, op.get("cuts"));
                 self.ev(json!({"ev":"peer_wrote","c":c,"m":rc::mdesc(&frames),"note":op.get("note").cloned().unwrap_or(Value::Null)}));
             }
+            "pburst" => {
+                // several messages arrive in ONE segment: a single transport read brings them all into the library's read buffer
+                let mut all = vec![];
+                let ms: Vec<Vec<Vec<u8>>> = op.get("ms").and_then(|v| v.as_array()).map(|a| a.iter().map(frames_of).collect()).unwrap_or_default();
+                for frames in &ms {
+                    all.extend(rc::enc_msg(frames));
+                }
+                self.push_cut(c, &all, None);
+                for frames in &ms {
+                    self.ev(json!({"ev":"peer_wrote","c":c,"m":rc::mdesc(frames)}));
+                }
+            }
             "preply" => {
                 // the peer that received the library's last message answers (no-op if nothing was written yet)
                 if let Some(lc) = self.last_wire_conn {
@@ -652,6 +666,10 @@ impl Env {
             "settle" => {
                 sim::settle().await;
             }
+            "budget" => {
+                // the application's task gets k transport reads per poll of the task (a runtime's cooperative budget)
+                sim::set_budget(op.get("k").and_then(|v| v.as_i64()));
+            }
             _ => return false,
         }
         sim::settle().await;
@@ -733,6 +751,7 @@ pub async fn run_scenario(sc: &Value) -> Vec<Value> {
     // answers Pending there is a (momentarily) slow subscriber by definition, so writes are not jittered for them
     env.jitter_writes = !matches!(stype.as_str(), "PUB" | "XPUB");
     gate().set_hold(None);
+    sim::set_budget(None);
     take_panics();
     env.ev(json!({"ev":"reset","scen":sc.get("scen").cloned().unwrap_or(json!(0)),"sock":stype,"tag":sc.get("tag").cloned().unwrap_or(Value::Null),"jitter":env.jitter,"fair":true}));
     let ops: Vec<Value> = sc["ops"].as_array().cloned().unwrap_or_default();
